@@ -15,16 +15,17 @@ PROP = dict(
                "hold that state. Exploration of schedules by perturbation: a clean run is weak evidence, a race report or a "
                "non-linearizable history is strong evidence.",
     level_note="Schedules cannot be enumerated; failures are schedule dependent and do not shrink (the failure message carries the full "
-               "stamped history). Results of TopN/top, Blocks, Count, Sum, minRow/maxRow and the changed flag of multi-shard or "
-               "multi-view requests are exercised but not constrained (caches are stale by design; D11/D14/D19 belong to other "
-               "properties). A workload that does not finish within 180/300 s ends the run as inconclusive with a goroutine dump. "
+               "stamped history). At fragment level top(ids) (one count read per row), minRow/maxRow and the Blocks checksum are "
+               "constrained too; results of TopN/top(n) (the ranked cache is refreshed every 10 s by design), Count, Sum and the "
+               "changed flag of multi-shard or multi-view requests are exercised but not constrained. A workload that does not finish within 180/300 s ends the run as inconclusive with a goroutine dump. "
                "Single node, in-process API (no HTTP layer).",
     rule="one evaluation = one generated workload (clients x operations x delays x GOMAXPROCS x snapshot threshold); distinct = hash of the "
          "whole plan. non-trivial = on some object two operations of different clients overlap in time and at least one is a write.",
     assumptions=["linearizable objects are single fragments / (field, shard) pairs: pilosa maps multi-shard requests shard by shard",
                  "Store() sources are rows of a field no client writes (Store reads the source and writes the target in two lock acquisitions)",
                  "rows() is used with a column filter (without one it also reports rows whose containers were emptied: C16's subject)",
-                 "while D28 is open the int field's bit depth is grown to the pool's maximum before the clients start"],
+                 "while D28 is open the int field's bit depth is grown to the pool's maximum before the clients start; while DC5 is open the "
+                 "results of Row(v == x) are not constrained (Field.Value reads are)"],
     tags=["gc"],
     units=[
         U("frag", ".", "^TestVerifC29_Fragment$", 160, 6000, sq=4, sth=14, race=True,
